@@ -304,7 +304,8 @@ impl TspP {
     /// 3: one city astronomically far away (1e150) from a uniform cluster - (1/d)^beta underflows to 0,
     /// 4: uniform 1..10 in a very small unit (1e-18), objective = pure tour length (a few 1e-17),
     /// 5: uniform 1..10, distances defined between different cities only (`strict_diagonal`),
-    /// 6: uniform 1..10 with about a third of the edges missing (weight +inf: tours through them are infeasible)
+    /// 6: uniform 1..10 with about a third of the edges missing (weight +inf: tours through them are infeasible),
+    /// 7: uniform 1..10 in a unit of 1e-160 (tour lengths ~1e-159: their reciprocals are huge but finite)
     pub fn generated(n: usize, kind: u8, seed: u64) -> Self {
         let mut dist = vec![0.0; n * n];
         let mut s = seed.wrapping_mul(0x9E3779B97F4A7C15).wrapping_add(kind as u64 + 1);
@@ -329,6 +330,7 @@ impl TspP {
                     2 => 10f64.powf(-3.0 + 9.0 * u),
                     4 => (1.0 + 9.0 * u) * 1e-18,
                     5 => 1.0 + 9.0 * u,
+                    7 => (1.0 + 9.0 * u) * 1e-160,
                     6 => {
                         if u < 0.33 {
                             f64::INFINITY
@@ -349,7 +351,7 @@ impl TspP {
             }
         }
         let mut p = Self::new(n, dist);
-        if kind == 4 && n >= 2 {
+        if (kind == 4 || kind == 7) && n >= 2 {
             p.offset = 0.0;
         }
         if kind == 5 {
